@@ -301,7 +301,7 @@ func (r *rw) rewriteStmt(st ast.Stmt, labeled string) (string, bool) {
 		if sel, ok := x.Call.Fun.(*ast.SelectorExpr); ok && sel.Sel.Name == "Unlock" {
 			if ptr, ok := r.isSync(sel.X, "Mutex"); ok {
 				r.count("unlock")
-				return "defer simrt.Unlock(" + r.addr(sel.X, ptr) + ")", true
+				return "defer simrt.Unlock(" + r.addr(sel.X, ptr) + ", " + r.site(x, "unlock") + ")", true
 			}
 		}
 		return "", false
@@ -335,7 +335,7 @@ func (r *rw) rewriteStmt(st ast.Stmt, labeled string) (string, bool) {
 				case "Unlock":
 					if ptr, ok := r.isSync(sel.X, "Mutex"); ok {
 						r.count("unlock")
-						return "simrt.Unlock(" + r.addr(sel.X, ptr) + ")", true
+						return "simrt.Unlock(" + r.addr(sel.X, ptr) + ", " + r.site(x, "unlock") + ")", true
 					}
 				case "Do":
 					if ptr, ok := r.isSync(sel.X, "Once"); ok && len(call.Args) == 1 {
